@@ -71,17 +71,19 @@ class Scratch:
         shutil.rmtree(self.dir, ignore_errors=True)
 
 
-def run_plan(sc, plan, keep_log=False, timeout=300):
+def run_plan(sc, plan, keep_log=False, timeout=300, extra_env=None, binary=None):
     """Execute one plan in a fresh process. Returns (record or None, exitcode, stderr)."""
     d = tempfile.mkdtemp(prefix="run-", dir=sc.dir)
     pf = os.path.join(d, "plan.json")
     of = os.path.join(d, "out.json")
     json.dump(plan, open(pf, "w"))
-    cmd = [sc.bin, "-test.run", "TestWorker", "-test.timeout", "0", "-mode", "run", "-plan", pf, "-out", of]
+    cmd = [binary or sc.bin, "-test.run", "TestWorker", "-test.timeout", "0", "-mode", "run", "-plan", pf, "-out", of]
     if keep_log:
         cmd.append("-log")
+    env = worker_env()
+    env.update(extra_env or {})
     try:
-        r = subprocess.run(cmd, capture_output=True, text=True, timeout=timeout, env=worker_env())
+        r = subprocess.run(cmd, capture_output=True, text=True, timeout=timeout, env=env)
         code, err = r.returncode, r.stderr + r.stdout
     except subprocess.TimeoutExpired:
         code, err = 124, "timeout"
@@ -111,6 +113,9 @@ def crash_record(plan, code, err):
     if "WARNING: DATA RACE" in txt:
         prop, cls = "C18", "data-race"
         where = race_where(txt)
+        if where == "unknown":
+            # both stacks are wholly inside the harness or a dependency: harness trouble, not a verdict
+            return {"run": plan.get("run", -1), "reason": "harness", "harness": "race report without pion/turn frames:\n" + txt[-3000:], "violations": [], "steps": 0, "virtual_ns": 0, "sig": "", "states": 0, "requests": 0, "wall_us": 0}
     elif "FATAL-RECORD " in txt:
         line = [l for l in txt.splitlines() if l.startswith("FATAL-RECORD ")][-1]
         return json.loads(line[len("FATAL-RECORD "):])
@@ -146,19 +151,26 @@ def panic_where(txt):
 
 
 def race_where(txt):
+    """The two pion/turn functions of a race report (first turn frame of each stack)."""
     fr = []
+    stack_first = True
     for l in txt.splitlines():
-        l = l.strip()
-        if l.startswith("github.com/pion/turn/v5") and "verifsim" not in l and "simsync" not in l:
-            f = l.split("(")[0].replace("github.com/pion/turn/v5", "turn")
-            if f not in fr:
-                fr.append(f)
-        if len(fr) >= 2:
-            break
-    return "|".join(sorted(fr)) or "unknown"
+        t = l.strip()
+        if t.startswith(("Write at", "Read at", "Previous write", "Previous read", "Atomic", "Previous atomic")):
+            stack_first = True
+            continue
+        if t.startswith("Goroutine ") or t.startswith("=================="):
+            stack_first = False
+            continue
+        if stack_first and t.startswith("github.com/pion/turn/v5") and t.endswith(")") and "verifsim" not in t and "simsync" not in t:
+            name = t[:t.rfind("(")].replace("github.com/pion/turn/v5", "turn")
+            fr.append(name)
+            stack_first = False
+    fr = sorted(set(fr))
+    return "|".join(fr) or "unknown"
 
 
-def explore(sc, prop, tier, seed, budget, workers):
+def explore(sc, prop, tier, seed, budget, workers, extra_env=None):
     """Fan plans out to single-P worker processes. Returns list of records."""
     wd = tempfile.mkdtemp(prefix="explore-", dir=sc.dir)
     procs = []
@@ -172,7 +184,9 @@ def explore(sc, prop, tier, seed, budget, workers):
         cmd = [sc.bin, "-test.run", "TestWorker", "-test.timeout", "0", "-mode", "explore", "-prop", prop, "-tier", tier, "-seed", str(seed),
                "-from", str(frm), "-stride", str(workers), "-budget", "%ds" % left, "-out", out, "-cur", cur]
         errf = open(os.path.join(wd, "w%d-%d.err" % (i, frm)), "w")
-        p = subprocess.Popen(cmd, stdout=errf, stderr=errf, env=worker_env())
+        env = worker_env()
+        env.update(extra_env or {})
+        p = subprocess.Popen(cmd, stdout=errf, stderr=errf, env=env)
         return {"i": i, "from": frm, "p": p, "out": out, "cur": cur, "err": errf.name}
 
     for i in range(workers):
@@ -315,6 +329,18 @@ def triage(sc, prop, recs, known, replay_dir, max_new=3):
         if not plan:
             harness.append("violation %s without plan" % sig)
             continue
+        if v["class"] == "data-race":
+            # found by the race detector in free-running mode: the report itself is the evidence;
+            # the replay file re-runs the plan on a -race build (the interleaving is not pinned)
+            small = copy.deepcopy(plan)
+            small["mode"] = "free-race"
+            small["expect"] = {"property": prop, "class": v["class"], "key": v.get("key"), "step": -1, "t_ns": -1, "detail": v.get("detail", "")[-3000:]}
+            small["code_rev"] = code_rev()
+            os.makedirs(replay_dir, exist_ok=True)
+            path = os.path.join(replay_dir, "%s-%s-%s-%s.json" % (prop, small.get("seed"), small.get("run"), v["class"]))
+            json.dump(small, open(path, "w"), indent=1)
+            new.append((v, path, 0))
+            continue
         rec2, code, err = run_plan(sc, plan)
         v2 = has_class(rec2, prop, v["class"])
         if not v2:
@@ -444,9 +470,14 @@ def check(prop, tier):
                 if scx.bin is None:
                     log("race build failed")
                     return 2
-            r, h = explore(scx, ps["prop"], tier, seed, b, NCPU)
+            r, h = explore(scx, ps["prop"], tier, seed, b, NCPU if not ps.get("workers") else ps["workers"], ps.get("env"))
+            r = [x for x in r if x.get("reason") != "skipped"]
             for x in r:
                 x["pass"] = ps.get("name", ps["prop"])
+                if ps.get("env"):
+                    x["env"] = ps["env"]
+                if ps.get("race"):
+                    x["race"] = True
             recs += r
             harness += h
         known = load_known()
@@ -488,6 +519,19 @@ def replay(path):
     try:
         if not sc.build():
             return 2
+        if plan.get("mode") == "free-race":
+            rb = prep.build(sc.dir, race=True)
+            if rb is None:
+                return 2
+            for attempt in range(int(os.environ.get("VERIF_RACE_TRIES", "30"))):
+                rec, code, err = run_plan(sc, plan, extra_env={"VERIF_RACEMODE": "1"}, binary=rb)
+                v = has_class(rec, exp.get("property"), "data-race")
+                if v and (v.get("key") or {}).get("where") == (exp.get("key") or {}).get("where"):
+                    print("VIOLATION property=%s replay=%s" % (v["property"], os.path.abspath(path)))
+                    log("race reproduced at attempt %d: %s" % (attempt + 1, (v.get("key") or {}).get("where")))
+                    return 1
+            log("race not reproduced in the attempts made (its interleaving is not pinned by the plan)")
+            return 0
         rec, code, err = run_plan(sc, plan, keep_log=True)
         if rec is None:
             log("no record (exit %s): %s" % (code, err[-2000:]))
